@@ -56,6 +56,11 @@ EXPLANATION = ("Theorems (Props/C18.lean) hold for EVERY draw list, i.e. every b
                "rule), GoodStart / goodStart_default (tree= continuation: every bd_* theorem now holds from any admissible start tree; the restart "
                "restores the start tree), gsa_selects_last (the slice loop always returns the last slice), gsa_result (cut back to a slice = the "
                "tree as it stood then: exactly N equidistant extant leaves), dbd_result (discrete simulator: equidistant, >= ntax leaves). "
+               "Final round: bd_taxa_range / fbd_taxa_range (members of the supplied namespace first, new taxa numbered on from n0), "
+               "kingman_succeeds / pb_succeeds (every well-formed script yields a tree), dbd_only_script_errors. Stated limits: every bd_* "
+               "result assumes an admissible start tree (GoodStart; default fresh tree admissible) and, for no-internal-failure, gauss draws "
+               "that never lower a rate; gsa_result / dbd_result are conditional on a tree being returned; expovariate's rate argument "
+               "is not modelled (waiting times are inputs). "
                "Determinism (clause d) is definitional in the model (functions of arguments and draw list); its content is the tie: "
                "tripwires on GLOBAL_RNG / random.*, equal-state double runs with shaken memory layout, fresh-interpreter runs.")
 
@@ -159,7 +164,8 @@ class ScriptRng(object):
         avail = list(range(len(pop)))
         for _ in range(k):
             idx.append(avail.pop(self.pick(len(avail))))
-        self.log.append("s" + ",".join(str(i) for i in idx))
+        # sampling the whole population is a shuffle: log it as one, so that `shuffle(x)` and `sample(x, len(x))` are the same draw
+        self.log.append(("p" if (k == len(pop) and k != 2) else "s") + ",".join(str(i) for i in idx))
         return [pop[i] for i in idx]
 
     def shuffle(self, x):
@@ -513,7 +519,11 @@ class GlobalWatch(object):
         self.orig_urandom = getattr(random, "_urandom", None)
 
         def init(obj, *a, **k):
-            me.made += 1
+            # a generator seeded explicitly (from a constant or from the supplied rng) is still a function of the arguments and
+            # the generator state; only one seeded from the clock / system entropy is not
+            seed_arg = a[0] if a else k.get("x")
+            if seed_arg is None:
+                me.made += 1
             return me.orig_init(obj, *a, **k)
 
         def urandom(n):
@@ -537,7 +547,7 @@ class GlobalWatch(object):
         if random.getstate() != self.s2:
             t.append("module-level random.*")
         if self.made:
-            t.append("a generator constructed during the call (random.Random / SystemRandom)")
+            t.append("an unseeded generator constructed during the call (random.Random() / SystemRandom())")
         if self.entropy:
             t.append("system entropy (os.urandom via the random module)")
         return t
@@ -915,10 +925,13 @@ def one_case(ctx, dendropy, case, pending, compare=True):
                 # evolving rates may leave the admissible domain (negative rates): whatever the code then does, it must do
                 # it reproducibly and with the supplied generator only
                 res, aux, touched = "EXC " + type(e).__name__, None, gw.touched()
+                if rep == 0:
+                    ctx.count("evolving_rates_out_of_domain_exception/" + type(e).__name__)
                 runs.append((res, aux, rng, touched))
                 continue
-            if case.get("expect_error"):
-                # inadmissible argument (empty namespace): the code refuses; the model must refuse too (`err arg`)
+            if case.get("expect_error") and isinstance(e, (IndexError, ValueError)):
+                # inadmissible argument (empty namespace): the code refuses (today by an IndexError on `taxon_namespace[0]`; a
+                # deliberate ValueError would do as well; any other exception class is reported); the model must refuse too (`err arg`)
                 ctx.case([sim, case["params"], case["rng"]], False, kind=sim + "/inadmissible")
                 if rep == 0 and compare and case["rng"]["kind"] == "script":
                     line = " ".join({"pb": ["pb", "0"], "king": ["king", "0", str(case["params"].get("pop", 1))]}[sim] + rng.log)
@@ -1390,7 +1403,7 @@ def fresh_interpreter(ctx, dendropy, cases):
 def run(ctx):
     dendropy = __import__("dendropy")
     rng = ctx.rng
-    ctx.set_budget(40, 420)
+    ctx.set_budget(33, 420)
     pending = []
     n_iter = ctx.pick(3000, 150000)
     max_n = ctx.pick(10, 30)
@@ -1433,7 +1446,7 @@ def run(ctx):
     flush(ctx, pending)
     fresh_interpreter(ctx, dendropy, fresh)
     if ctx.tier == "thorough":
-        ctx.set_budget(40, 800)
+        ctx.set_budget(33, 800)
         exhaustive(ctx, dendropy, pending)
 
 
